@@ -1,15 +1,21 @@
 /* Native replay for C08: KSI_ExtendResp_verifyWithRequest of the REAL library against the predicate of the
  * property ("status zero, the request's id, the requested aggregation and publication times, a calendar chain
  * whose shape is consistent with those times"), evaluated with spec/caltime.h.
- * Neighbourhood: status {absent, 0, 0x101, 0x200} x response id {absent, 7, 8} x request id 7 x requested publication
- * time {absent, equal, other} x chain aggregation time {absent, equal, other} x shapes (all left/right patterns of
- * length 1..4 under publication times 1..12).  Also the wire form: an extension response PDU v2 without status
- * element is parsed with KSI_ExtendPdu_parse and its response checked against a request with another id.
+ * Neighbourhood: status {absent, 0, 0x101, 0x200, 0x7fffffff, 0xffffffff and the 64-bit values 2^32, 3*2^32, 2^32+0x101,
+ * 2^40, 2^63, 2^64-2^32, 2^64-1: the status is a 64-bit integer, "zero" means all 64 bits} x response id {absent, 7, 8} x
+ * request id 7 x requested publication time {absent, equal, other} x chain aggregation time {absent, equal, other} x shapes
+ * (all left/right patterns of length 1..4 under publication times 1..12).
+ * KSI_convertExtenderStatusCode (the mapping verifyWithRequest returns for a non-zero status; also used by the
+ * calendar based verification rules): KSI_OK only for status zero/absent, for all values above plus k*2^32, k*2^32+defined code.
+ * Also the wire form: an extension response PDU v2 without status element / with a 5..8 byte status element (2^32, 3*2^32,
+ * 2^63, ...) is parsed with KSI_ExtendPdu_parse and its response checked against a request with another id, and against
+ * the request it would match if its status were zero.
  * exit 1 = real code accepts a reply the property forbids (or refuses one it demands). */
 #include "replay/replay_common.h"
 #include "spec/caltime.h"
 #include <ksi/types.h>
 #include <ksi/hashchain.h>
+#include <ksi/net.h>
 
 static KSI_CTX *ctx;
 static int bad = 0, bad_with_status = 0;
@@ -58,42 +64,95 @@ static void one(int has_status, unsigned long long status, int has_rid, unsigned
 	KSI_ExtendResp_free(resp); KSI_ExtendReq_free(req);
 }
 
-/* wire form: ext response PDU v2 { header{login "a"}, ext_resp{ req_id=5, cal chain{pub=2, aggr=1, input hash, one right link} }, hmac } - no status */
-static void wire(void) {
-	unsigned char hash[33]; unsigned char pdu[512]; size_t n = 0, i; KSI_ExtendPdu *p = NULL; KSI_ExtendResp *r = NULL; KSI_ExtendReq *req = NULL; int res;
+/* wire form: ext response PDU v2 { header{login "a"}, ext_resp{ req_id=5, [status,] cal chain{pub=2, aggr=2, input hash, one right link} }, hmac }
+ * has_status == 0: no status element; otherwise the status as a minimal big-endian integer (5..8 bytes for values >= 2^32) */
+static void wire(int has_status, unsigned long long status) {
+	unsigned char hash[33]; unsigned char pdu[512]; size_t n = 0, i; KSI_ExtendPdu *p = NULL; KSI_ExtendResp *r = NULL; KSI_ExtendReq *req = NULL; int res, exp;
 	unsigned char chain[128]; size_t cn = 0; unsigned char resp[200]; size_t rn = 0; unsigned char body[400]; size_t bn = 0;
 	hash[0] = 0x01; for (i = 1; i < 33; i++) hash[i] = (unsigned char)i;
 	/* calendar chain 0x802 (TLV16): pub_time 01 01 02 ; aggr_time 02 01 01 ; input hash 05 21 .. ; right link 08 21 .. */
 	chain[cn++] = 0x01; chain[cn++] = 1; chain[cn++] = 2;
-	chain[cn++] = 0x02; chain[cn++] = 1; chain[cn++] = 1;
+	chain[cn++] = 0x02; chain[cn++] = 1; chain[cn++] = 2;
 	chain[cn++] = 0x05; chain[cn++] = 33; memcpy(chain + cn, hash, 33); cn += 33;
 	chain[cn++] = 0x08; chain[cn++] = 33; memcpy(chain + cn, hash, 33); cn += 33;
-	resp[rn++] = 0x01; resp[rn++] = 1; resp[rn++] = 5;                       /* req_id = 5, NO status element */
+	resp[rn++] = 0x01; resp[rn++] = 1; resp[rn++] = 5;                       /* req_id = 5 */
+	if (has_status) {                                                        /* status 04 len big-endian-minimal */
+		int nb = 0, k; unsigned long long v = status;
+		while (v) { nb++; v >>= 8; }
+		resp[rn++] = 0x04; resp[rn++] = (unsigned char)nb;
+		for (k = nb - 1; k >= 0; k--) resp[rn++] = (unsigned char)(status >> (8 * k));
+	}
 	resp[rn++] = 0x88; resp[rn++] = 0x02; resp[rn++] = 0; resp[rn++] = (unsigned char)cn; memcpy(resp + rn, chain, cn); rn += cn;
 	body[bn++] = 0x01; body[bn++] = 4; body[bn++] = 0x01; body[bn++] = 2; body[bn++] = 'a'; body[bn++] = 0;   /* header{login_id "a"} */
 	body[bn++] = 0x02; body[bn++] = (unsigned char)rn; memcpy(body + bn, resp, rn); bn += rn;               /* ext_resp */
 	body[bn++] = 0x1f; body[bn++] = 33; memcpy(body + bn, hash, 33); bn += 33;                                /* hmac (not checked here) */
 	pdu[n++] = 0x83; pdu[n++] = 0x21; pdu[n++] = (unsigned char)(bn >> 8); pdu[n++] = (unsigned char)bn; memcpy(pdu + n, body, bn); n += bn;
 	res = KSI_ExtendPdu_parse(ctx, pdu, n, &p);
-	if (res != KSI_OK) { printf("(wire form: PDU did not parse, res=0x%x - skipped)\n", res); return; }
+	if (res != KSI_OK) { printf("(wire form: PDU %s status 0x%llx did not parse, res=0x%x - skipped)\n", has_status ? "with" : "without", status, res); return; }
 	KSI_ExtendPdu_getResponse(p, &r);
+	if (has_status) {
+		KSI_Integer *st = NULL; KSI_ExtendResp_getStatus(r, &st);
+		if (st == NULL || KSI_Integer_getUInt64(st) != status) { printf("(wire form: status 0x%llx not carried over by the parser - skipped)\n", status); KSI_ExtendPdu_free(p); return; }
+	}
+	/* (a) a request the reply has nothing to do with */
 	KSI_ExtendReq_new(ctx, &req); KSI_ExtendReq_setRequestId(req, mkint(7)); KSI_ExtendReq_setAggregationTime(req, mkint(1000)); KSI_ExtendReq_setPublicationTime(req, mkint(2000));
 	res = KSI_ExtendResp_verifyWithRequest(r, req);
 	if (res == KSI_OK) {
-		printf("MISBEHAVIOUR: parsed extension response PDU v2 WITHOUT status element (req_id 5, pub 2, aggr 1) checked against request "
-				"(id 7, aggr 1000, pub 2000): KSI_ExtendResp_verifyWithRequest returns KSI_OK (types.c:2698-2701: "
-				"KSI_convertExtenderStatusCode(NULL) == KSI_OK and goto cleanup skips every other check)\n");
-		bad++;
+		if (!has_status)
+			printf("MISBEHAVIOUR: parsed extension response PDU v2 WITHOUT status element (req_id 5, pub 2, aggr 2) checked against request "
+				"(id 7, aggr 1000, pub 2000): KSI_ExtendResp_verifyWithRequest returns KSI_OK "
+				"(KSI_convertExtenderStatusCode(NULL) == KSI_OK and goto cleanup skips every other check)\n");
+		else
+			printf("MISBEHAVIOUR: parsed extension response PDU v2 with status 0x%llx != 0 (req_id 5, pub 2, aggr 2) checked against request "
+				"(id 7, aggr 1000, pub 2000): KSI_ExtendResp_verifyWithRequest returns KSI_OK (non-zero status reported as success; "
+				"id, time and shape checks skipped)\n", status);
+		bad++; if (has_status) bad_with_status++;
+	}
+	KSI_ExtendReq_free(req); req = NULL;
+	/* (b) the request the reply would answer if its status were zero */
+	KSI_ExtendReq_new(ctx, &req); KSI_ExtendReq_setRequestId(req, mkint(5)); KSI_ExtendReq_setAggregationTime(req, mkint(2)); KSI_ExtendReq_setPublicationTime(req, mkint(2));
+	res = KSI_ExtendResp_verifyWithRequest(r, req);
+	exp = spec_accept(has_status, status, 1, 5, 5, 1, 2, 2, 1, 2, 2, 1, 0);
+	if ((res == KSI_OK) != exp) {
+		printf("MISBEHAVIOUR: parsed extension response PDU v2 %s%llx (req_id 5, pub 2, aggr 2, one right link) checked against the matching request "
+				"(id 5, aggr 2, pub 2): KSI_ExtendResp_verifyWithRequest returns 0x%x, property says %s\n", has_status ? "with status 0x" : "without status/",
+				status, res, exp ? "accept" : "refuse");
+		bad++; if (has_status) bad_with_status++;
 	}
 	KSI_ExtendPdu_free(p); KSI_ExtendReq_free(req);
 }
 
+/* KSI_convertExtenderStatusCode: KSI_OK iff the (64-bit) status is zero; a defined code keeps its meaning only as the full value */
+static void convert(void) {
+	static const unsigned long long lo[] = { 0, 1, 0x100, 0x101, 0x102, 0x103, 0x104, 0x105, 0x106, 0x107, 0x200, 0x201, 0x202, 0x300, 0x301, 0x7fffffff, 0x80000000ULL, 0xffffffffULL };
+	static const unsigned long long hi[] = { 0, 1, 2, 3, 0x100, 0x7fffffff, 0x80000000ULL, 0xffffffffULL };
+	unsigned i, j; int shown = 0;
+	for (j = 0; j < sizeof(hi) / sizeof(hi[0]); j++) for (i = 0; i < sizeof(lo) / sizeof(lo[0]); i++) {
+		unsigned long long v = (hi[j] << 32) | lo[i]; KSI_Integer *st = mkint(v); int res = KSI_convertExtenderStatusCode(st);
+		int res_lo; KSI_Integer *sl = mkint(lo[i]); res_lo = KSI_convertExtenderStatusCode(sl);
+		if ((res == KSI_OK) != (v == 0)) {
+			if (shown++ < 4) printf("MISBEHAVIOUR: KSI_convertExtenderStatusCode(0x%llx) = 0x%x, property: KSI_OK exactly for status zero\n", v, res);
+			bad++; bad_with_status++;
+		} else if (hi[j] != 0 && res != KSI_SERVICE_UNKNOWN_ERROR && res == res_lo) {
+			if (shown++ < 4) printf("MISBEHAVIOUR: KSI_convertExtenderStatusCode(0x%llx) = 0x%x, the meaning of the 32-bit code 0x%llx: the upper half of the status is ignored\n", v, res, lo[i]);
+			bad++; bad_with_status++;
+		}
+		KSI_Integer_free(st); KSI_Integer_free(sl);
+	}
+}
+
 int main(int argc, char **argv) {
-	static const int st_has[] = { 0, 1, 1, 1 }; static const unsigned long long st_val[] = { 0, 0, 0x101, 0x200 };
+	static const int st_has[] = { 0, 1, 1, 1, 1, 1, 1, 1, 1, 1, 1, 1, 1 };
+	static const unsigned long long st_val[] = { 0, 0, 0x101, 0x200, 0x7fffffffULL, 0xffffffffULL,
+		0x100000000ULL /* 2^32 */, 0x300000000ULL /* 3*2^32 */, 0x100000101ULL /* 2^32+0x101 */, 0x10000000000ULL /* 2^40 */,
+		0x8000000000000000ULL /* 2^63 */, 0xffffffff00000000ULL /* 2^64-2^32 */, 0xffffffffffffffffULL };
+	static const unsigned long long wire_st[] = { 0, 0x101, 0x100000000ULL, 0x300000000ULL, 0x100000101ULL, 0x10000000000ULL, 0x8000000000000000ULL, 0xffffffff00000000ULL };
 	int s, r, qp, a, len; unsigned p; unsigned long long pub;
 	rp_init(argc, argv);
 	KSI_CTX_new(&ctx);
-	for (s = 0; s < 4; s++) for (r = 0; r < 3; r++) for (qp = 0; qp < 3; qp++) for (a = 0; a < 3; a++)
+	/* a status value handed over by the verifier (trace of resp->status->value), if any, is tried first */
+	if (rp_has("status")) { unsigned long long v = (unsigned long long)rp_ll("status", 0); wire(1, v); one(1, v, 1, 8, 1, 4, 2, 1, 9, 2, 1, 0); one(1, v, 1, 7, 1, 2, 2, 1, 2, 2, 1, 0); }
+	for (s = 0; s < (int)(sizeof(st_val) / sizeof(st_val[0])); s++) for (r = 0; r < 3; r++) for (qp = 0; qp < 3; qp++) for (a = 0; a < 3; a++)
 		for (pub = 1; pub <= 12; pub++) for (len = 1; len <= 4; len++) for (p = 0; p < (1u << len); p++) {
 			spec_cal_state st; int i; unsigned long long t;
 			spec_cal_init(&st, (long long)pub);
@@ -101,7 +160,9 @@ int main(int argc, char **argv) {
 			t = spec_cal_accepts(&st) ? (unsigned long long)st.t : 0;       /* requested aggregation time: the shape's (if any) */
 			one(st_has[s], st_val[s], r != 0, r == 1 ? 7 : 8, qp != 0, qp == 1 ? pub : pub + 1, pub, a != 0, a == 1 ? t : t + 1, t, len, p);
 		}
-	wire();
+	convert();
+	wire(0, 0);
+	for (s = 0; s < (int)(sizeof(wire_st) / sizeof(wire_st[0])); s++) wire(1, wire_st[s]);
 	if (bad) RP_FAIL("%d disagreement(s) between KSI_ExtendResp_verifyWithRequest and the property (%d of them with a status element present)", bad, bad_with_status);
 	printf("no disagreement in the neighbourhood\n");
 	return 0;
